@@ -32,8 +32,29 @@ import pytket
 from pytket import Circuit
 
 
+CONVERSIONS = []   # one record per conversion the mock performed: the circuit AS HANDED to it
+
+
+def describe(c):
+    return {"commands": [str(cmd) for cmd in c.get_commands()],
+            "q_registers": [[r.name, r.size] for r in c.q_registers],
+            "c_registers": [[r.name, r.size] for r in c.c_registers],
+            "n_qubits": c.n_qubits, "n_bits": c.n_bits,
+            "symbols": sorted(str(s) for s in c.free_symbols())}
+
+
+def order_by_mode(names, mode):
+    names = sorted(names)
+    if mode == "rev":
+        return names[::-1]
+    if mode == "rot" and names:
+        return names[1:] + names[:1]
+    return names
+
+
 class Tk2Circuit:
     meta_order = None
+    meta_mode = None     # histories: order derived from the circuit handed to the conversion
 
     def __init__(self, circ):
         self.c = circ
@@ -41,12 +62,16 @@ class Tk2Circuit:
     def to_bytes(self, config):
         c = self.c
         names = sorted(str(s) for s in c.free_symbols())
-        order = list(Tk2Circuit.meta_order) if Tk2Circuit.meta_order is not None else names
+        if Tk2Circuit.meta_mode is not None:
+            order = order_by_mode(names, Tk2Circuit.meta_mode)
+        else:
+            order = list(Tk2Circuit.meta_order) if Tk2Circuit.meta_order is not None else names
         assert sorted(order) == names, (order, names)
+        CONVERSIONS.append({**describe(c), "meta_order": order})
         ins = [ht.Qubit] * c.n_qubits + [ht.Bool] * c.n_bits + [FLOAT_T] * len(names)
         outs = [ht.Qubit] * c.n_qubits + [ht.Bool] * c.n_bits
         m = Module()
-        f = m.define_function("circ", ins, outs)
+        f = m.define_function(f"circ#{len(CONVERSIONS) - 1}", ins, outs)
         f.set_outputs(*f.inputs()[: len(outs)])
         if names:
             m.hugr[f.parent_node].metadata["TKET1.input_parameters"] = order
@@ -77,6 +102,7 @@ hb.Hugr.insert_hugr = _insert_hugr
 
 from guppylang import guppy  # noqa: E402
 from guppylang_internals.definition.pytket_circuits import _signature_from_circuit  # noqa: E402
+from guppylang_internals.engine import ENGINE  # noqa: E402
 from guppylang_internals.error import GuppyError  # noqa: E402
 from guppylang_internals.tys.ty import InputFlags  # noqa: E402
 
@@ -120,6 +146,7 @@ def trace_outer(h, name, case, circ):
         for k in range(len(circ.free_symbols())):
             env[(inp, nq + k)] = ("ang", k)
     call_args = None
+    called = None
 
     def ins(n):
         vals = []
@@ -168,6 +195,10 @@ def trace_outer(h, name, case, circ):
             continue
         if tn == "Call":
             call_args = [v for v in iv if v[0] != "static"]
+            tgt = [v for v in iv if v[0] == "static"]
+            if tgt:
+                tnode = next(x for x in h.children(h.module_root) if x.idx == tgt[0][1])
+                called = h[tnode].op.f_name
             for k in range(h.num_out_ports(n)):
                 env[(n, k)] = ["Out", k]
             continue
@@ -181,7 +212,7 @@ def trace_outer(h, name, case, circ):
     outs = []
     for v in ins(out):
         outs.append(list(v[1]) if isinstance(v, tuple) and v[0] == "arr" else [v])
-    return {"call_args": call_args, "outputs": outs}
+    return {"call_args": call_args, "outputs": outs, "called": called}
 
 
 def main():
@@ -242,7 +273,74 @@ def main():
             except Exception as e:  # noqa: BLE001
                 res["stub_accepted"] = f"crash: {type(e).__name__}: {e}"
         results.append(res)
-    json.dump({"results": results}, sys.stdout)
+    json.dump({"results": results, "histories": [run_history(hi, h) for hi, h in enumerate(req.get("histories", []))]}, sys.stdout)
+
+
+def mutate(c, kind, tag):
+    """in-place change of a live circuit object"""
+    qs = list(c.qubits)
+    if kind == "gates":
+        c.X(qs[-1])
+        if len(qs) > 1:
+            c.CZ(qs[-1], qs[0])
+        else:
+            c.H(qs[0])
+    elif kind == "qreg":
+        r = c.add_q_register(f"n{tag}", 1 + tag % 2)
+        c.H(r[0])
+    elif kind == "creg":
+        r = c.add_c_register(f"k{tag}", 1)
+        c.Measure(qs[0], r[0])
+    elif kind == "param":
+        c.Rz(Symbol(f"s{tag}"), qs[tag % len(qs)])
+    else:
+        raise ValueError(kind)
+
+
+def run_history(hi, ops_):
+    """ops: ["new", slot, case] | ["copy", slot, from] | ["mutate", slot, kind] | ["load", name, slot, arrays]
+            | ["compile", name, meta_mode].  One record per op."""
+    slots, defs, out = {}, {}, []
+    for oi, op in enumerate(ops_):
+        rec = {"op": op[0]}
+        try:
+            if op[0] == "new":
+                slots[op[1]] = build(op[2])
+                rec["contents"] = describe(slots[op[1]])
+            elif op[0] == "copy":
+                slots[op[1]] = slots[op[2]].copy()
+                rec["contents"] = describe(slots[op[1]])
+            elif op[0] == "mutate":
+                mutate(slots[op[1]], op[2], oi)
+                rec["contents"] = describe(slots[op[1]])
+            elif op[0] == "load":
+                name = f"h{hi}_{op[1]}"
+                defs[op[1]] = (name, guppy.load_pytket(name, slots[op[2]], use_arrays=op[3]), op[2], op[3])
+            elif op[0] == "compile":
+                name, d, slot, arrays = defs[op[1]]
+                c = slots[slot]
+                rec["current"] = describe(c)        # ground truth: the live object right now
+                repo_shim._MD.clear()
+                Tk2Circuit.meta_mode = op[2]
+                n_before = len(CONVERSIONS)
+                try:
+                    h = d.compile_function().modules[0]
+                finally:
+                    Tk2Circuit.meta_mode = None
+                w = trace_outer(h, name, {"arrays": arrays}, c)
+                rec["wiring"] = {"call_args": w["call_args"], "outputs": w["outputs"]}
+                rec["conversions_run"] = len(CONVERSIONS) - n_before
+                k = int(w["called"].split("#")[1]) if w["called"] and "#" in w["called"] else None
+                rec["body"] = CONVERSIONS[k] if k is not None else None      # what the body that is CALLED was converted from
+                sig = ENGINE.get_parsed(d.id).ty if hasattr(ENGINE, "get_parsed") else None
+                rec["sig"] = {"inputs": [[str(i.ty), InputFlags.Inout in i.flags] for i in sig.inputs], "output": str(sig.output)} if sig is not None else None
+        except Unsupported as e:
+            rec["unsupported"] = str(e)
+        except Exception as e:  # noqa: BLE001
+            rec["err"] = f"{type(e).__name__}: {e}"
+            rec["tb"] = traceback.format_exc()[-800:]
+        out.append(rec)
+    return out
 
 
 main()
